@@ -376,6 +376,16 @@ func (v *VServer) FireOnlyRx(id string) {
 	}
 }
 
+// NodeIDs lists the associated node ids with their addresses (debugging aid).
+func (v *VServer) NodeIDs() []string {
+	var out []string
+	for id, n := range v.S.rnodes {
+		out = append(out, fmt.Sprintf("%s@%v(%d sess)", id, n.addr, len(n.sess)))
+	}
+	sort.Strings(out)
+	return out
+}
+
 func (v *VServer) RxIDs() []string {
 	var out []string
 	for k := range v.S.rxTrans {
